@@ -273,6 +273,28 @@ func (e *Engine) RunAll(bin string, scs []Scenario, perProc, jobs int) ([]Result
 
 // ---- workload
 
+// siblings are the other inputs whose document name differs from in's only behind the last underscore.
+func siblings(in Input, all []Input) []Input {
+	stem := func(p string) string {
+		b := strings.TrimSuffix(filepath.Base(p), filepath.Ext(p))
+		if i := strings.LastIndex(b, "_"); i > 0 {
+			return filepath.Join(filepath.Dir(p), b[:i])
+		}
+		return ""
+	}
+	st := stem(in.In.Spec)
+	if st == "" || !strings.Contains(in.In.Spec, "near_") {
+		return nil
+	}
+	var out []Input
+	for _, o := range all {
+		if !o.Big && o.In.Spec != in.In.Spec && stem(o.In.Spec) == st {
+			out = append(out, o)
+		}
+	}
+	return out
+}
+
 // AssembleIndex makes the pool document with the given index (a pure function of the index).
 func AssembleIndex(idx int) string {
 	rng := rand.New(rand.NewSource(asmBase*1_000_003 + int64(idx)))
@@ -443,6 +465,11 @@ func (e *Engine) sample(rng *rand.Rand, in Input, all []Input, i int, sched bool
 				o := all[rng.Intn(len(all))]
 				for o.Big {
 					o = all[rng.Intn(len(all))]
+				}
+				// a near-identical sibling (near_a.yml / near_b.yml: the same names and equivalent patterns in another
+				// spelling) is the earlier generation most likely to leave something behind that matters
+				if sib := siblings(in, all); len(sib) > 0 && rng.Intn(2) == 0 {
+					o = sib[rng.Intn(len(sib))]
 				}
 				h.Input = o.In
 			}
